@@ -713,7 +713,7 @@ THEOREMS = {
     'C11': ['C11.getShape_ok_iff', 'C11.accept_count', 'C11.accept_positions', 'C11.accept_vector_blocks',
             'C11.accept_spacing', 'C11.refuse_empty', 'C11.refuse_not_factoring', 'C11.refuse_spacing',
             'C11.refuse_vector_count', 'C11.refuse_bad_volume', 'C11.f13_accepted', 'C11.f13_mixes_time',
-            'C11.accept_does_not_imply_one_time'],
+            'C11.accept_does_not_imply_one_time', 'C11.accept_complete', 'C11.accept_complete_order'],
     'C12': ['C12.sort_perm_invariant', 'C12.chkSort_perm_invariant', 'C12.step_spec', 'C12.run_inv',
             'C12.history_independent', 'C12.reverse_involutive'],
     'C20': ['C20.tm_colons_ignored', 'C20.tm_same_digits', 'C20.tm_instances', 'C20.tm_malformed',
